@@ -9,6 +9,7 @@ import (
 
 	"github.com/nspcc-dev/neo-go/pkg/core/block"
 	"github.com/nspcc-dev/neo-go/pkg/core/transaction"
+	"github.com/nspcc-dev/neo-go/pkg/crypto/hash"
 	"github.com/nspcc-dev/neo-go/pkg/neorpc/result"
 	"github.com/nspcc-dev/neo-go/pkg/rpcclient/unwrap"
 	"github.com/nspcc-dev/neo-go/pkg/smartcontract/scparser"
@@ -71,6 +72,11 @@ func checkInvocationScript(script []byte) error {
 func verifyN3Scripts(nsr N3ScriptRunner, height uint32, acc util.Uint160, invocScript, verifScript []byte, dataHash [sha256.Size]byte) error {
 	if err := checkInvocationScript(invocScript); err != nil {
 		return fmt.Errorf("invalid invocation script: %w", err)
+	}
+
+	// the run below proves what the scripts compute, not whose they are
+	if hash.Hash160(verifScript) != acc {
+		return errors.New("verification script does not belong to the account")
 	}
 
 	fullScript := slices.Concat(invocScript, verifScript)
